@@ -27,7 +27,9 @@ FromLog(r) ==
    q |-> {<<r.q[i][1], r.q[i][2]>> : i \in DOMAIN r.q},
    sup |-> r.sup, params |-> r.params, bal |-> r.bal, supply |-> r.supply]
 
-ObsOf(r) == [inexact |-> r.inexact]
+(* scaleBits: bit length of the magnitude-tier scale K the harness multiplied
+   every amount with (1 = unscaled); the logged amounts are real / K *)
+ObsOf(r) == [inexact |-> r.inexact, scaleBits |-> r.scaleBits]
 
 TraceInit ==
   /\ Trace[1].ev.name = "Init"
@@ -126,7 +128,9 @@ ExNames ==
    "limit_after_update", "asset_removed_inflight", "skip", "reject", "create_to_module_rej",
    "refund_dozens", "dt_zero", "dt_beyond_period", "inactive_rej", "amount_range_rej", "asset_lock_range_rej",
    "below_fee_rej", "changed_inflight", "deputy_changed_inflight", "claim_inactive_ok", "refund_unsupported",
-   "claim_new_deputy"}
+   "claim_new_deputy",
+   "scaled_create_ok", "scaled_limit_rej", "scaled_claim", "scaled_refund", "scaled_sum64_rej", "scaled_sum64_ok",
+   "mag_2p31_32", "mag_2p32_53", "mag_2p53_63", "mag_2p63_64", "mag_2p64_65", "mag_2p96", "mag_2p127_129"}
 
 Exercised ==
   {c \in ExNames :
@@ -210,6 +214,22 @@ Exercised ==
             LET P(x) == x.transfer /\ \E d \in DOMAIN x.amt : d \in DOMAIN pre.params
                            /\ pre.params[d].deputy \notin {x.sender, x.to}
             IN ev.ok /\ ClaimOn(P)
+       [] c = "scaled_create_ok" -> obs.scaleBits > 1 /\ (CreatedNow(Incoming) \/ CreatedNow(Outgoing))
+       [] c = "scaled_limit_rej" -> obs.scaleBits > 1 /\ ev.name = "Create" /\ ~ev.ok
+                                    /\ Apply(pre, ev).why \in {"limit", "time_limit"}
+       [] c = "scaled_claim" -> obs.scaleBits > 1 /\ ev.ok /\ (ClaimOn(Incoming) \/ ClaimOn(Outgoing))
+       [] c = "scaled_refund" -> obs.scaleBits > 1 /\ RefundedNow # {}
+       \* limit, supply and amount each fit 64 bits on chain, their sum does not
+       [] c = "scaled_sum64_rej" -> ev.mag = "sum64" /\ ~ev.ok
+       [] c = "scaled_sum64_ok" -> ev.mag = "sum64" /\ ev.ok
+       \* strata of the single amounts (1..8 units of K): by the bit length of K
+       [] c = "mag_2p31_32" -> obs.scaleBits \in 29..32 /\ ev.name \in {"Create", "Claim"}
+       [] c = "mag_2p32_53" -> obs.scaleBits \in 33..52 /\ ev.name \in {"Create", "Claim"}
+       [] c = "mag_2p53_63" -> obs.scaleBits \in 53..61 /\ ev.name \in {"Create", "Claim"}
+       [] c = "mag_2p63_64" -> obs.scaleBits \in 62..63 /\ ev.name \in {"Create", "Claim"}
+       [] c = "mag_2p64_65" -> obs.scaleBits \in 64..70 /\ ev.name \in {"Create", "Claim"}
+       [] c = "mag_2p96" -> obs.scaleBits \in 90..110 /\ ev.name \in {"Create", "Claim"}
+       [] c = "mag_2p127_129" -> obs.scaleBits \in 120..130 /\ ev.name \in {"Create", "Claim"}
        [] c = "skip" -> ev.name = "Skip"
        [] c = "reject" -> ev.name \in MsgEvents /\ ~ev.ok}
 Coverage == (ev.name = "Init" \/ Exercised = {}) \/ PrintT(<<"EXERCISED", Exercised>>)
